@@ -16,12 +16,19 @@
     permutation of `name ↦ index`) `Arrange` is the identity **for every iteration order of the map** (the association-
     list order is arbitrary; sorting the entries by position always yields `name ↦ index` in index order), so every state
     whose tables satisfy the invariant is stable and all of the above applies to it.
-  Missing: that every state reachable by the readers and `Diff` satisfies the invariant (the Go harness checks it on
-  every reached state: `invCheck`, and the white-box state correspondence includes the maps).  Decided by the `calls` suite (every ordered pair / triple of the 8 output
+  * `loaded_pure`, `diffed_pure` — **every state the API reaches satisfies the invariant**: loading any scripts in any
+    number of calls with any of the three reader models, and `Diff` of two loaded sides (Proofs/NInv … ReaderPending:
+    each of the five slice/map edit shapes preserves the invariant, hence every `Table` / `Migration` primitive, every
+    reader step, `Table.Diff` and `Migration.Diff`).  Two run-time side conditions, met by every script an engine
+    accepts: a RENAME targets a name the table does not hold (`ScriptFresh`), and a positional ADD COLUMN does not name
+    a column the table already created (`ScriptPos`).  Scripts with neither construct need no condition
+    (`diffed_pure_simple`).  So output calls are pure on all of them, whatever order Go iterates the maps in.
+  What stays with the correspondence: that the Go code is the model (white-box state incl. the maps after every
+  script; `invCheck` on the Go state), and process-to-process determinism.  Decided by the `calls` suite (every ordered pair / triple of the 8 output
   methods + random longer sequences, also with output calls before `Diff`) and by byte-identical re-runs in fresh
   processes (fresh map-iteration seeds).
 -/
-import SqlizeModel.Proofs.Inv
+import SqlizeModel.Proofs.ReaderPending
 import SqlizeModel.Impl.Hash
 
 namespace Sqlize.C08
@@ -84,6 +91,34 @@ theorem arrange_identity (t : Table) (h : t.ColInv) : t.arrange = .ok t := arran
 theorem pure_of_inv (g : Globals) (m : Migration) (h : m.ColInv) (cs : List OutCall) :
     runCalls g m cs = (m, cs.map (fun c => (call g m c).2)) :=
   calls_pure g m (stable_of_inv m h) cs
+
+/-- output calls are pure on every state loaded from the empty model, in any number of calls, any dialect -/
+theorem loaded_pure (g : Globals) (calls : List (List Stmt)) (m : Migration) (hf : CallsFresh g {} calls)
+    (hs : readCalls g {} calls = .ok m) (cs : List OutCall) :
+    runCalls g m cs = (m, cs.map (fun c => (call g m c).2)) :=
+  pure_of_inv g m (readCalls_inv g calls {} m Migration.inv_empty hf hs).colInv cs
+
+/-- output calls are pure on every state `Sqlize.Diff` leaves behind -/
+theorem diffed_pure (g : Globals) (old new : List Stmt) (d : Migration) (hfo : ScriptFresh g {} old)
+    (hfn : ScriptFresh g {} new) (hqn : ScriptPos g {} new) (hs : loadAndDiff g old new = .ok d)
+    (cs : List OutCall) : runCalls g d cs = (d, cs.map (fun c => (call g d c).2)) :=
+  pure_of_inv g d (loadAndDiff_inv' g old new d hfo hfn hqn hs).colInv cs
+
+/-- … unconditionally for scripts without RENAME and without positional adds -/
+theorem diffed_pure_simple (g : Globals) (old new : List Stmt) (d : Migration)
+    (ho : old.all (fun s => !s.isRename) = true) (hn : new.all (fun s => !s.isRename) = true)
+    (hp : new.all (fun s => !s.isPositional) = true) (hs : loadAndDiff g old new = .ok d) (cs : List OutCall) :
+    runCalls g d cs = (d, cs.map (fun c => (call g d c).2)) :=
+  diffed_pure g old new d (scriptFresh_of_no_rename g {} old ho) (scriptFresh_of_no_rename g {} new hn)
+    (scriptPos_of_no_positional g {} new hp) hs cs
+
+-- non-vacuity: a pair of scripts that meets the hypotheses and reaches a diffed state with a dropped, an added
+-- and a kept column
+def exOld : List Stmt := [.createTable "t" 0 [{ name := "a", typ := "int" }, { name := "x", typ := "int" }] []]
+def exNew : List Stmt := [.createTable "t" 0 [{ name := "a", typ := "int" }, { name := "b", typ := "int" }] ["a"]]
+example : ∃ d, loadAndDiff {} exOld exNew = .ok d ∧ d.tables.length = 1 := ⟨_, by rfl, by rfl⟩
+example : exOld.all (fun s => !s.isRename) = true ∧ exNew.all (fun s => !s.isRename) = true ∧
+    exNew.all (fun s => !s.isPositional) = true := by decide
 
 -- non-vacuity: the empty model is stable, and so is any model whose tables have no columns to move
 example : ({} : Migration).Stable := by intro t ht; simp at ht
